@@ -22,6 +22,32 @@ class Boom(Exception):
     pass
 
 
+class BoomT(Boom, TypeError):
+    """a failing comparison whose exception happens to be a TypeError"""
+
+
+class TV:
+    """value object whose instances are counted (leak detection)"""
+    __slots__ = ("n",)
+    live = 0
+
+    def __init__(self, n):
+        self.n = n
+        TV.live += 1
+
+    def __del__(self):
+        TV.live -= 1
+
+    def __eq__(self, o):
+        return isinstance(o, TV) and o.n == self.n
+
+    def __hash__(self):
+        return hash(self.n)
+
+    def __repr__(self):
+        return "TV%d" % self.n
+
+
 class CK:
     """key whose comparisons are counted, recorded and can be made to fail"""
     __slots__ = ("n",)
@@ -29,6 +55,7 @@ class CK:
     fail_at = None
     probes = None
     target = None
+    exc = Boom        # what a failing comparison raises
     live = 0          # instances alive (leak detection)
 
     def __init__(self, n):
@@ -46,7 +73,7 @@ class CK:
             elif self is CK.target:
                 CK.probes.append(other.n)
         if CK.fail_at is not None and CK.count == CK.fail_at:
-            raise Boom(CK.count)
+            raise CK.exc(CK.count)
 
     def __lt__(self, o):
         self._hit(o); return self.n < o.n
@@ -78,7 +105,7 @@ class CK:
 
 
 def quiet():
-    CK.fail_at, CK.probes, CK.target = None, None, None
+    CK.fail_at, CK.probes, CK.target, CK.exc = None, None, None, Boom
 
 
 def build(cls, setlike, keys_in, keys_del, val):
@@ -122,7 +149,7 @@ def shape_term(sh):
 
 def contents(t, setlike):
     quiet()
-    return [k.n for k in t] if setlike else [(k.n, v) for k, v in t.items()]
+    return [k.n for k in t] if setlike else [(k.n, v.n if isinstance(v, TV) else v) for k, v in t.items()]
 
 
 def collapse(seq):
@@ -167,7 +194,7 @@ def run(ctx):
         cls = f.cls(kind, impl)
         setlike = kind in ("TreeSet", "Set")
         vm = f.valmap()
-        val = (lambda k: vm.v(k % 4))
+        val = (lambda k: TV(k % 4)) if fn == "OO" else (lambda k: vm.v(k % 4))
         ml, mi = rng.choice([(2, 2), (2, 3), (3, 3), (1, 2)])
         u = rng.choice([6, 12, 20])
         keys_in = rng.sample(range(0, 2 * u, 2), rng.randint(1, u))
@@ -180,10 +207,10 @@ def run(ctx):
             import gc
             t = key = nk = None
             gc.collect()
-            live0 = CK.live       # the keys of 'base' only
+            live0 = CK.live + TV.live       # the keys and values of 'base' only
             cand_keys = sorted(set(rng.sample(present, min(3, len(present))) + [rng.randrange(-1, 2 * u + 1) for _ in range(2)]))
             for k in cand_keys:
-                ops = ["get", "set", "del", "range", "minkey"]
+                ops = ["get", "set", "del", "range", "minkey"] + ([] if setlike else ["pop"])
                 for op in ops:
                     def do(t, key):
                         if op == "get":
@@ -193,9 +220,11 @@ def run(ctx):
                         if op == "del":
                             return t.remove(key) if setlike else t.__delitem__(key)
                         if op == "range":
-                            return list(t.keys(key, CK(key.n + 5)))
+                            return [x for x in t.keys(key, CK(key.n + 5))]   # (not list(): its length hint swallows a TypeError raised by __len__)
                         if op == "minkey":
                             return t.minKey(key)
+                        if op == "pop":
+                            return t.pop(key, None)
                     # ---- reference run: count comparisons, record probes, result
                     t = build(cls, setlike, keys_in, keys_del, val)
                     key = CK(k)
@@ -217,6 +246,7 @@ def run(ctx):
                         t = build(cls, setlike, keys_in, keys_del, val)
                         key = CK(k)
                         CK.count, CK.fail_at, CK.probes, CK.target = 0, n, None, None
+                        CK.exc = BoomT if (kind in ("BTree", "TreeSet") and op in ("get", "range", "minkey") and n % 2 == 0) else Boom
                         outcome = None
                         try:
                             do(t, key)
@@ -255,11 +285,11 @@ def run(ctx):
                         if bad is None:
                             # no stored key is leaked: dropping the container frees every key object
                             t = key = nk = None
-                            if CK.live != live0:
+                            if CK.live + TV.live != live0:
                                 gc.collect()
-                            if CK.live != live0:
-                                bad = "leak:%d key object(s) still alive after the container was dropped" % (CK.live - live0)
-                                live0 = CK.live
+                            if CK.live + TV.live != live0:
+                                bad = "leak:%d key / value object(s) still alive after the container was dropped" % (CK.live + TV.live - live0)
+                                live0 = CK.live + TV.live
                         if bad:
                             ctx.oracle_failure("%s:%s:%s:%s" % (impl, kind, op, bad.split(":")[0] + (":" + bad.split(":")[1] if bad.startswith("unsound") else "")),
                                                "%s%s/%s sizes=(%d,%d) keys=%r deleted=%r: %s(%d) with comparison #%d of %d failing: %s" % (
